@@ -35,7 +35,7 @@ use parser::Parser;
 use pattern::Pattern;
 use quote::ToTokens;
 
-use proc_macro2::{TokenStream, TokenTree};
+use proc_macro2::TokenStream;
 use quote::quote;
 use syn::spanned::Spanned;
 use syn::{parse_quote, LitBool};
@@ -470,18 +470,22 @@ pub fn strip_attributes(input: TokenStream) -> TokenStream {
     for attr in &mut item.attrs {
         if let syn::Meta::List(meta) = &mut attr.meta {
             if meta.path.is_ident("derive") {
-                let mut tokens =
-                    std::mem::replace(&mut meta.tokens, TokenStream::new()).into_iter();
+                // The derive list is a comma separated list of paths (`Debug`, `serde::Serialize`,
+                // `::core::fmt::Debug`, ...): drop the ones that name the `Logos` derive, together
+                // with their separator, and keep every other path as it is.
+                type Paths = syn::punctuated::Punctuated<syn::Path, syn::Token![,]>;
 
-                while let Some(TokenTree::Ident(ident)) = tokens.next() {
-                    let punct = tokens.next();
-
-                    if ident == "Logos" {
-                        continue;
-                    }
-
-                    meta.tokens.extend([TokenTree::Ident(ident)]);
-                    meta.tokens.extend(punct);
+                if let Ok(paths) = meta.parse_args_with(Paths::parse_terminated) {
+                    meta.tokens = paths
+                        .into_pairs()
+                        .filter(|pair| {
+                            pair.value()
+                                .segments
+                                .last()
+                                .map_or(true, |segment| segment.ident != "Logos")
+                        })
+                        .collect::<Paths>()
+                        .into_token_stream();
                 }
             }
         }
